@@ -20,6 +20,6 @@ It should look like a plausible refactoring / optimisation / off-by-one mistake 
 
 DELIVERABLES in /tmp/wt/out/{wt}/ :
  - patch.diff : output of  git -C /tmp/wt/{wt} diff
- - demo.py    : a small standalone program (run with the PYTHONPATH above) that exits 0 on the UNMODIFIED code and fails (AssertionError / non-zero exit) WITH your change. Verify both, e.g. with `git stash` / `git stash pop` in the worktree. The demo should compare the library's output with an independently computed expected value.
+ - demo.py    : a small standalone program (run with the PYTHONPATH above) that exits 0 on the UNMODIFIED code and fails (AssertionError / non-zero exit) WITH your change. Verify both, e.g. with `git diff > /tmp/wt/out/{wt}/p.diff; git apply -R /tmp/wt/out/{wt}/p.diff; ...; git apply /tmp/wt/out/{wt}/p.diff` in the worktree (NEVER use `git stash`: the stash is shared between all worktrees of the repository). The demo should compare the library's output with an independently computed expected value.
  - meta.json  : {{"property": "{pid}", "summary": ..., "needs_to_manifest": ..., "files_changed": [...], "commands_run": [...]}}
 Leave the worktree with your change applied. Be economical: read only the files relevant to the property, do not explore the whole repository. Your final reply should be a 5-line summary (what you changed, what it needs to manifest, test-suite result, demo result).""")
